@@ -88,9 +88,9 @@ Theorem C05_batch_edits_atomic : forall c,
 Proof. exact batch_edits_atomic. Qed.
 Print Assumptions C05_batch_edits_atomic.
 
-(* D3 cache_refines: in every history without with_tags the placement cache, whenever present, equals
-   the summary recomputed from the moments ... *)
-Theorem C05_cache_refines : forall h, Forall not_with_tags h -> cache_ok (run empty_circuit h).
+(* D3 cache_refines: in every history (with_tags included, since fix 7550ee0) the placement cache,
+   whenever present, equals the summary recomputed from the moments ... *)
+Theorem C05_cache_refines : forall h, cache_ok (run empty_circuit h).
 Proof. exact history_cache_ok. Qed.
 Print Assumptions C05_cache_refines.
 
@@ -120,21 +120,16 @@ Theorem C05_cache_index_is_scan : forall pc ms o, cache_matches pc ms ->
 Proof. exact gea_eq_eam. Qed.
 Print Assumptions C05_cache_index_is_scan.
 
-(* with_tags breaks it (genuine defect of /repo, known finding order:with_tags): statements kept refuted *)
-Theorem C05_cache_refines_with_tags_refuted : exists h, Forall call_wf h /\ ~ cache_ok (run empty_circuit h).
-Proof. exact with_tags_cache_refuted. Qed.
-Print Assumptions C05_cache_refines_with_tags_refuted.
+(* ... so after any history an appended Moment ends up last (refuted before with_tags was repaired) *)
+Theorem C05_append_moment_last : forall h m,
+  moms (run empty_circuit (h ++ [CAppend [IMom m] EARLIEST])) = moms (run empty_circuit h) ++ [m].
+Proof. exact history_append_moment_last. Qed.
+Print Assumptions C05_append_moment_last.
 
-Theorem C05_append_last_with_tags_refuted :
-  exists h m, Forall call_wf (h ++ [CAppend [IMom m] EARLIEST]) /\
-              moms (run empty_circuit (h ++ [CAppend [IMom m] EARLIEST])) <> moms (run empty_circuit h) ++ [m].
-Proof. exact with_tags_append_refuted. Qed.
-Print Assumptions C05_append_last_with_tags_refuted.
-
-(* D6 summaries_valid: in a history in which no exception escaped insert half-way, every lazily cached
-   summary that is marked valid equals its recomputation from the moments *)
-Theorem C05_summaries_valid : forall h, clean empty_circuit h -> sums_ok (run empty_circuit h).
-Proof. exact history_sums_ok. Qed.
+(* D6 summaries_valid: after any history every lazily cached summary that is marked valid equals its
+   recomputation from the moments (no exception can escape insert half-way, see C05_insert_never_raises) *)
+Theorem C05_summaries_valid : forall h, sums_ok (run empty_circuit h).
+Proof. exact history_sums_ok_unconditional. Qed.
 Print Assumptions C05_summaries_valid.
 
 (* D5 strategy_placement: closed forms for one operation / one Moment (k = the clamped index) *)
@@ -230,20 +225,14 @@ Theorem C05_order_preserved_constructor : forall its,
 Proof. exact construct_order. Qed.
 Print Assumptions C05_order_preserved_constructor.
 
-(* the order clause is refuted for three calls (genuine defects of /repo, known findings) *)
+(* the order clause is refuted for two calls (open defects of /repo, known findings order:concat and
+   order:frontier); batch_insert was a third until fix b5fcbdd, see batch_insert_repaired_example *)
 Theorem C05_concat_ragged_order_refuted :
   exists c others c', Forall wf (moms c :: others) /\ concat_ragged c others LEFT = (c', inl 0) /\
     conflicts (wM 2 0 0) (wC 3 1 0) = true /\
     uid_moms (moms c) = [[1]; [2]] /\ uid_moms (moms c') = [[1; 3]; [2]].
 Proof. exact concat_ragged_order_refuted. Qed.
 Print Assumptions C05_concat_ragged_order_refuted.
-
-Theorem C05_batch_insert_order_refuted :
-  exists c ins c', batch_insert c ins = (c', inl 0) /\
-    ins = [(0, [IOp (wX 4 1)]); (2, [IOp (wX 5 2)])] /\ conflicts (wX 3 2) (wX 5 2) = true /\
-    uid_moms (moms c) = [[1]; [2]; [3]] /\ uid_moms (moms c') = [[1; 4]; [2]; [3]; [5]].
-Proof. exact batch_insert_order_refuted. Qed.
-Print Assumptions C05_batch_insert_order_refuted.
 
 Theorem C05_insert_at_frontier_order_refuted :
   exists its c' f, insert_at_frontier empty_circuit its 0 [] = (c', inl f) /\
@@ -253,20 +242,15 @@ Proof. exact insert_at_frontier_order_refuted. Qed.
 Print Assumptions C05_insert_at_frontier_order_refuted.
 
 (* insert never raises: any strategy, index, operation tree, on a circuit whose cache (if any) agrees
-   with its moments - in particular after every history without with_tags; hence D6 without the
-   side condition *)
+   with its moments - which is the case after every history *)
 Theorem C05_insert_never_raises : forall c i its s, cache_ok c -> exists c' z, insert c i its s = (c', inl z).
 Proof. exact insert_total. Qed.
 Print Assumptions C05_insert_never_raises.
 
 Theorem C05_insert_never_raises_in_history : forall h i its s,
-  Forall not_with_tags h -> exists c' z, insert (run empty_circuit h) i its s = (c', inl z).
+  exists c' z, insert (run empty_circuit h) i its s = (c', inl z).
 Proof. exact history_insert_never_raises. Qed.
 Print Assumptions C05_insert_never_raises_in_history.
-
-Theorem C05_summaries_valid_unconditional : forall h, Forall not_with_tags h -> sums_ok (run empty_circuit h).
-Proof. exact history_sums_ok_unconditional. Qed.
-Print Assumptions C05_summaries_valid_unconditional.
 
 (* batches produced by _group_into_moment_compatible: a Moment alone, or pairwise non-conflicting operations *)
 Theorem C05_grouping_compatible : forall its, Forall batch_ok (group_into_moment_compatible its).
@@ -277,12 +261,11 @@ Print Assumptions C05_grouping_compatible.
 Example C05_hypotheses_example :
   let h := [CAppend [IOp (mkop 1 [0; 1] [] [] [] true); IMom [mkop 2 [0] [3] [] [] false]] EARLIEST;
             QAllQubits; CInsert (-1) [IOp (mkop 3 [1] [] [3] [] false)] LATEST; CBatchRemove [(0, mkop 1 [0; 1] [] [] [] true)]] in
-  Forall call_wf h /\ Forall not_with_tags h /\ clean empty_circuit h /\
+  Forall call_wf h /\ clean empty_circuit h /\
   uid_moms (moms (run empty_circuit h)) = [[]; [3]; [2]].
 Proof.
-  cbv zeta. split; [|split; [|split]].
+  cbv zeta. split; [|split].
   - repeat constructor; simpl; intuition discriminate.
-  - repeat constructor.
   - vm_compute. tauto.
   - vm_compute. reflexivity.
 Qed.
